@@ -250,6 +250,14 @@ def instance(rng, cls, small=True, features=True):
             inst["scaling"] = [[u, v, rng.choice(["0", "1/4", "1/2", "1"])] for (u, v) in edges if rng.random() < 0.4]
         if cls in ERROR | COVER and rng.random() < 0.25:
             inst["ignore"] = [list(e) for e in edges if rng.random() < 0.25][:max(0, len(edges) - 1)]
+        # a well-formed instance keeps an edge to explain: not all edges ignored / scaled by 0 (the classes reject that)
+        dead = {tuple(e) for e in inst.get("ignore", [])} | {(x[0], x[1]) for x in inst.get("scaling", []) if x[2] == "0"}
+        if edges and all(tuple(e) in dead for e in edges):
+            keep = next((e for e in edges if list(e) not in inst.get("ignore", [])), edges[0])
+            if inst.get("ignore"):
+                inst["ignore"] = [e for e in inst["ignore"] if tuple(e) != tuple(keep)]
+            if inst.get("scaling"):
+                inst["scaling"] = [x for x in inst["scaling"] if (x[0], x[1]) != tuple(keep)]
         if cls not in FLOW_DECOMP and rng.random() < 0.25:
             inner = [v for v in nodes]
             inst["starts"] = rng.sample(inner, 1)
